@@ -41,7 +41,7 @@ def topoSort (cs : Pairs) : Option (List Nat) :=
 every correspondence case. -/
 def idxOf (order : List Nat) (x : Nat) : Nat := order.findIdx (· == x)
 def validOrder (cs : Pairs) (order : List Nat) : Bool :=
-  order.eraseDups.length == order.length &&
+  decide order.Nodup &&
   cs.all (fun c => order.contains c.1 && order.contains c.2 && idxOf order c.1 < idxOf order c.2)
 
 /-- `min(w_i, w_j for j in key_less_than_values[i])` -/
